@@ -369,6 +369,107 @@ func runC01(w *World, r *Report) {
 	ruleClearOnRead(w, r, "C01.clear-on-read")
 
 	// ---- end-short-circuit
+	r.Rule("C01.empty-selection-allowed", "the wrappers NewGraphMultiBranch / NewStreamGraphMultiBranch put around a condition fail only when the condition failed or named a node that is not among the branch's end nodes: selecting nothing is an outcome (the node's plain edges and other branches still deliver), not an error of the run", 2)
+	{
+		n := 0
+		for _, name := range []string{"NewGraphMultiBranch", "NewStreamGraphMultiBranch"} {
+			outer := w.Fn("compose", name)
+			for _, lit := range withAnons(outer) {
+				if lit == outer {
+					continue
+				}
+				instrs(lit, func(in ssa.Instruction) {
+					ret, ok := in.(*ssa.Return)
+					if !ok || len(ret.Results) != 2 || isNilConst(ret.Results[1]) {
+						return
+					}
+					n++
+					okGuard := false
+					for _, g := range guardsOf(ret.Block()) {
+						// err != nil of the condition
+						if guardNonNil(g, func(v ssa.Value) bool {
+							return implementsError(v.Type()) || types.Identical(v.Type(), types.Universe.Lookup("error").Type())
+						}) {
+							okGuard = true
+						}
+						// miss arm of the end-node lookup: `!endNodes[end]` (a bool-valued map) or the comma-ok form
+						if lk, isLk := g.cond.(*ssa.Lookup); isLk && !lk.CommaOk && !g.pol {
+							okGuard = true
+						}
+						if u, isU := g.cond.(*ssa.UnOp); isU && u.Op == token.NOT && g.pol {
+							if lk, isLk := u.X.(*ssa.Lookup); isLk && !lk.CommaOk {
+								okGuard = true
+							}
+						}
+						if ex, isEx := g.cond.(*ssa.Extract); isEx && ex.Index == 1 && !g.pol {
+							if lk, isLk := ex.Tuple.(*ssa.Lookup); isLk && lk.CommaOk {
+								okGuard = true
+							}
+						}
+					}
+					// the error returned is the condition's own
+					if _, isExtract := ret.Results[1].(*ssa.Extract); isExtract {
+						okGuard = true
+					}
+					r.Check(okGuard, "C01.empty-selection-allowed", fmt.Sprintf("%s: error return #%d", w.fname(lit), n), ret.Pos(), "the condition's own error, or an unintended end node", "the branch wrapper fails the run for a reason of its own (e.g. an empty selection): a multi-way branch that picks none of its targets in some step — an optional side path in a loop — makes the whole run fail with a branch error instead of continuing along the node's other successors")
+				})
+			}
+		}
+		if n < 2 {
+			undecidedf("C01.empty-selection-allowed: only %d error returns found in the multi-branch wrappers", n)
+		}
+	}
+
+	r.Rule("C01.chunks-are-values", "the per-chunk converters package compose hands to StreamReaderWithConvert (keyed form, any form, checkers) update no container captured from outside the call: every chunk is a value of its own — consumers keep earlier chunks while asking for the next one (concatenation for a non-streaming successor, fan-in forwarding, copies)", 3)
+	{
+		n := 0
+		for _, fn := range w.RepoFuncs("compose") {
+			instrs(fn, func(in ssa.Instruction) {
+				c, ok := in.(ssa.CallInstruction)
+				if !ok {
+					return
+				}
+				sc := staticCallee(c)
+				if sc == nil || origin(sc).Name() != "StreamReaderWithConvert" || len(c.Common().Args) < 2 {
+					return
+				}
+				mc, ok := c.Common().Args[1].(*ssa.MakeClosure)
+				if !ok {
+					return
+				}
+				lit := mc.Fn.(*ssa.Function)
+				n++
+				bad := ""
+				instrs(lit, func(x ssa.Instruction) {
+					var target ssa.Value
+					switch y := x.(type) {
+					case *ssa.MapUpdate:
+						target = y.Map
+					case *ssa.Store:
+						if ia, ok := y.Addr.(*ssa.IndexAddr); ok {
+							target = ia.X
+						}
+					}
+					for d := 0; d < 4 && target != nil; d++ {
+						switch z := target.(type) {
+						case *ssa.FreeVar:
+							bad = z.Name()
+							target = nil
+						case *ssa.UnOp:
+							target = z.X
+						default:
+							target = nil
+						}
+					}
+				})
+				r.Check(bad == "", "C01.chunks-are-values", fmt.Sprintf("%s: converter %s", w.fname(fn), lit.Name()), lit.Pos(), "no update of a captured map / slice", "the converter refills a container captured from outside ("+bad+") and hands it out again for every chunk: all chunks of the stream are one object, so whoever keeps an earlier chunk while reading the next sees only the last value — Parallel{a streams x,y,z} followed by a plain function gives \"in-x-y-z\" under Invoke and \"-z-z-z\" under Stream")
+			})
+		}
+		if n < 3 {
+			undecidedf("C01.chunks-are-values: only %d converter literals handed to StreamReaderWithConvert in package compose", n)
+		}
+	}
+
 	r.Rule("C01.end-short-circuit", "END's value is returned before tasks are created and before the next submit", 4)
 	calc := w.Fn("compose", "runner.calculateNextTasks")
 	create := w.Fn("compose", "runner.createTasks")
